@@ -383,7 +383,8 @@ EXTRA = {
     "C01": "ALSO PROVED, calibration runs -- C01_its_tier_calibration: the ITS tier for the CDW-extended grammar Spec/GrammarItsCdw.v (the data of a page optionally "
            "led by a calibration data word right behind the first TDH that announces data; user fields equal to those of the CDW before it on the link, or word index 0), "
            "proved on top of the ITS-tier lemmas by frame lemmas for the start-of-data flag and the remembered CDW that hold for EVERY state and word; its membership test "
-           "(C01_calibration_membership_test_sound) is extracted and run on every generated calibration link.",
+           "(C01_calibration_membership_test_sound) is extracted and run on every generated calibration link. C01_stave_tier_calibration: the same for the stave tier "
+           "(stave-conforming trigger packets + CDWs; a CDW is not lane data), with its own extracted membership test; C01_plain_grammar_is_contained.",
     "C02": "ALSO: C02_every_word_is_judged (no word crashes a validator -- C04 --, so the theorems for TDT rules and unrecognised identifiers carry no `unless it crashes` "
            "escape any more); C02_cdw_layout / C02_cdw_rule / C02_cdw_elsewhere_is_invalid_data (the CDW accessors read the documented fields; [E81] EXACTLY when the user "
            "fields change with a non-zero index against the remembered CDW; a 0xF8 word anywhere but at the start of a packet's data is an invalid data word [E70]); the "
